@@ -1,7 +1,7 @@
 """C15 — gradients through TT operations match the dense derivative (autograd model, DESIGN 4 C15)."""
 
 EXPRS = ['full', 'add', 'sub_mul', 'scalar_ops', 'neg_kron', 'sum_all', 'sum_index', 'dot', 'dot_sq', 'norm_sq', 'norm', 'matvec', 'matmat', 'bilinear',
-         'getitem', 'apply_mask', 'cat', 'pad', 'diag', 'mprod', 'depth3', 'scale_by_dot', 'scale_by_sum', 'add_tracked_scalar', 'copy_forms']
+         'getitem', 'apply_mask', 'cat', 'pad', 'diag', 'mprod', 'mprod_list', 'depth3', 'scale_by_dot', 'scale_by_sum', 'add_tracked_scalar', 'copy_forms']
 
 
 def cases(tier, seed):
@@ -44,6 +44,15 @@ def cases(tier, seed):
                 cs.append({'scen': 'ad_grad', 's': dict(base, tracked={'x': None}, api='grad', unwatch=True)})
                 if uses_y:
                     cs.append({'scen': 'ad_grad', 's': dict(base, tracked={'x': None, 'y': None}, api='grad_list', watch='list', unwatch=True)})
+    # operands that are views (non-contiguous cores): strided slices, transposed operators
+    for N, R, R2 in [([2, 2], [1, 2, 1], [1, 1, 1]), ([2, 3], [1, 2, 1], [1, 2, 1])]:
+        d = len(N)
+        base = {'N': N, 'R': R, 'R2': R2, 'RA': [1] + [2] * (d - 1) + [1]}
+        for e, trs in (('matvec', ({'A': None}, {'x': None})), ('bilinear', ({'A': None}, {'y': None})), ('matmat', ({'A': None},)), ('dot', ({'x': None},)),
+                       ('add', ({'x': None},)), ('sub_mul', ({'y': None},)), ('full', ({'x': None},)), ('norm_sq', ({'x': None},))):
+            for tr in trs:
+                for via in (('sliced', 'transposed') if 'A' in tr else ('sliced',)):
+                    cs.append({'scen': 'ad_grad', 's': dict(base, expr=e, tracked=tr, api='grad', via='sliced' if via == 'sliced' else None, via_A=via)})
     # grad_list over tensors of different order (kron), lower order first / last / in between is decided by the dict order
     for trk in ({'y': None, 'x': None}, {'x': None, 'y': None}):
         for api in ('grad_list', 'grad_list_nested'):
